@@ -643,6 +643,86 @@ pub fn run(ctx: &Ctx) -> Result<Evidence, String> {
         });
         acc = Acc::merge(vec![acc, lacc]);
     }
+    // containers that differ in exactly one position - every position of arrays of 1..65
+    // elements and of objects of 1..33 members - against the base container and against a copy
+    {
+        let lens = [1usize, 2, 3, 7, 8, 15, 16, 17, 18, 31, 32, 33, 63, 64, 65];
+        let mut pairs: Vec<(J, J, bool)> = vec![];
+        for &l in &lens {
+            let base = J::Arr((0..l as i64).map(J::int).collect());
+            pairs.push((base.clone(), base.clone(), true));
+            for p in 0..l {
+                let mut v: Vec<J> = (0..l as i64).map(J::int).collect();
+                v[p] = if p % 2 == 0 { J::int(-1) } else { J::float(p as f64 + 0.5) };
+                pairs.push((base.clone(), J::Arr(v), false));
+            }
+            if l <= 33 {
+                let ob = J::Obj((0..l).map(|i| (format!("m{:02}", i), J::int(i as i64))).collect());
+                pairs.push((ob.clone(), ob.clone(), true));
+                for p in 0..l {
+                    let mut m: Vec<(String, J)> = (0..l).map(|i| (format!("m{:02}", i), J::int(i as i64))).collect();
+                    m[p].1 = J::str("x");
+                    pairs.push((ob.clone(), J::Obj(m.clone()), false));
+                    // the same members in reverse order, one differing
+                    m.reverse();
+                    pairs.push((ob.clone(), J::Obj(m), false));
+                }
+            }
+        }
+        let n_pairs = pairs.len();
+        let pacc = par_run(ctx, n_pairs, |i, acc: &mut Acc| {
+            let (a, b, equal) = &pairs[i];
+            // nested one level too (inside an array) every other case
+            let (a, b) = if i % 2 == 0 { (a.clone(), b.clone()) } else { (J::Arr(vec![J::int(0), a.clone()]), J::Arr(vec![J::int(0), b.clone()])) };
+            let doc = Doc::new(&carrier(&Some(a.clone()), &Some(b.clone())));
+            for (op, want) in [(CmpOp::Eq, *equal), (CmpOp::Ne, !*equal), (CmpOp::Le, *equal), (CmpOp::Ge, *equal), (CmpOp::Lt, false)] {
+                let q = format!("$.c[?@.l {} @.r]", op.text());
+                acc.evaluations += 1;
+                match libapi::query_with_path(&q, &doc.value) {
+                    LibOutcome::Ok(ns) if ns.is_empty() != want => {
+                        acc.count("held", 1);
+                        acc.count("single_position_difference_held", 1);
+                    }
+                    o => ctx.violate(
+                        &format!("{} between two containers of {} elements that {}: {} (RFC 9535 says {})", op.text(), match &pairs[i].0 { J::Arr(v) => v.len(), J::Obj(m) => m.len(), _ => 0 }, if *equal { "are equal" } else { "differ in exactly one position" }, o.brief(), want),
+                        json!({"kind":"query","query": q, "document": serde_json::from_str::<serde_json::Value>(&doc.text()).unwrap_or_default(), "expected_truth": want}),
+                    ),
+                }
+            }
+        });
+        acc = Acc::merge(vec![acc, pacc]);
+    }
+    // random strings of 16..48 characters with a common prefix of random length and tails that
+    // differ in several places (date-like, path-like, multi-byte)
+    {
+        let n = ctx.tier.pick(3000, 300_000);
+        let seed = ctx.seed;
+        let sacc = par_run(ctx, n, |i, acc: &mut Acc| {
+            let mut r = Rng::stream(seed, 17_000_000 + i as u64);
+            let alpha: Vec<char> = "0123456789-:TZ/abz\u{e9}\u{100}\u{1f600}".chars().collect();
+            let gen = |r: &mut Rng, n: usize| -> String { (0..n).map(|_| *r.pick(&alpha[..])).collect() };
+            let (np, na, nb) = (r.below(30) as usize, 1 + r.below(24) as usize, 1 + r.below(24) as usize);
+            let prefix = gen(&mut r, np);
+            let (ta, tb) = (gen(&mut r, na), gen(&mut r, nb));
+            let (sa, sb) = (format!("{}{}", prefix, ta), format!("{}{}", prefix, tb));
+            let (va, vb) = (Some(J::str(&sa)), Some(J::str(&sb)));
+            let doc = Doc::new(&carrier(&va, &vb));
+            let lit_ok = |s: &str| s.chars().all(|c| c >= ' ' && c != '\'' && c != '"' && c != '\\');
+            for op in CmpOp::ALL {
+                let q = if i % 3 == 0 && lit_ok(&sb) { format!("$.c[?@.l {} '{}']", op.text(), sb) } else { format!("$.c[?@.l {} @.r]", op.text()) };
+                let want = compare(op, va.as_ref(), vb.as_ref());
+                acc.evaluations += 1;
+                match libapi::query_with_path(&q, &doc.value) {
+                    LibOutcome::Ok(ns) if ns.is_empty() != want => {
+                        acc.count("held", 1);
+                        acc.count("random_long_strings_held", 1);
+                    }
+                    o => ctx.violate(&format!("string comparison {:?} {} {:?}: {} (RFC 9535 says {})", sa, op.text(), sb, o.brief(), want), json!({"kind":"query","query": q, "document": serde_json::from_str::<serde_json::Value>(&doc.text()).unwrap_or_default(), "expected_truth": want})),
+                }
+            }
+        });
+        acc = Acc::merge(vec![acc, sacc]);
+    }
     // member names that are wrapped in quotes next to their plain twins, as operands written in
     // either quoting style (judged by the reference evaluator on the whole query)
     {
